@@ -92,7 +92,7 @@ def make_config(seed, tier, index, check_id):
     cfg = dict(seed=seed, tier=tier, check=check_id, family="journal")
     if check_id == "C08":
         cfg["max_ops"] = 12 if tier == "quick" else 25
-        cfg["crash_cap"] = 128
+        cfg["crash_cap"] = 128 if tier == "quick" else 256
         cfg["avoid_set_seq_num"] = rng.random() < 0.30
         cfg["no_reopen"] = False
         cfg["real_kill"] = bool(tier == "thorough" and index < 20)
